@@ -497,9 +497,20 @@ func appendsMapKey(app *ssa.Call) bool {
 	return false
 }
 
-func RuleG1(c *Ctx) {
+func RuleG1(c *Ctx) { ruleG1(c, "", 99) }
+
+// RuleG1In restricts G1 to the spawn sites of functions whose name contains sub.
+func RuleG1In(sub string, floor int) Rule { return func(c *Ctx) { ruleG1(c, sub, floor) } }
+
+func ruleG1(c *Ctx, only string, floor int) {
 	c.Rule("G1", "per-goroutine slots: a spawned function writes shared state only as (i) an element X[e] whose index derives solely from its own parameters, a loop over them, or a per-iteration cell; (i') a field of the object such an element of a duplicate-free pointer slice points to; (ii) a distinct constant index per spawn site; (iii) a channel operation; (iv) a sync/errgroup method")
-	sites := c.spawnSites()
+	all := c.spawnSites()
+	var sites []*spawnSite
+	for _, s := range all {
+		if only == "" || strings.Contains(core.FnName(s.top), only) {
+			sites = append(sites, s)
+		}
+	}
 	constIdx := map[string]map[int64][]string{} // root@parent -> const index -> sites
 	for _, s := range sites {
 		key := s.key(c)
@@ -622,7 +633,7 @@ func RuleG1(c *Ctx) {
 			}
 		}
 	}
-	c.FloorN("G1", 99, len(sites), "spawn sites")
+	c.FloorN("G1", floor, len(sites), "spawn sites")
 }
 
 func sameSiteSet(ss []string) bool {
